@@ -248,11 +248,17 @@ class JSONPointer:
             JSONPointerTypeError: When attempting to resolve a non-index string
                 path part against a sequence.
         """
-        if not self.parts:
-            return (None, self.resolve(data))
+        return self._resolve_parent(load_data(data))
 
-        _data = load_data(data)
-        parent = reduce(self._getitem, self.parts[:-1], _data)
+    def _resolve_parent(
+        self, data: object
+    ) -> Tuple[Union[Sequence[object], Mapping[str, object], None], object]:
+        # _data_ is a JSON value that has been loaded already. A string is a JSON
+        # string here, not JSON text to be parsed (again).
+        if not self.parts:
+            return (None, data)
+
+        parent = reduce(self._getitem, self.parts[:-1], data)
 
         try:
             return (parent, self._getitem(parent, self.parts[-1]))
